@@ -470,6 +470,9 @@ def _bin(f, a, b):
     if isinstance(a, (_np.ndarray, list, tuple)) or isinstance(b, (_np.ndarray, list, tuple)):
         A = _plain(a) if isinstance(a, (_np.ndarray, list, tuple)) else _conv_scalar(a)
         B = _plain(b) if isinstance(b, (_np.ndarray, list, tuple)) else _conv_scalar(b)
+        if A is POISON or B is POISON:
+            shp = A.shape if isinstance(A, _np.ndarray) else B.shape
+            return _filled(shp, POISON)
         return f(A, B).view(SymArray)
     return f(_conv_scalar(a), _conv_scalar(b))
 
